@@ -232,7 +232,13 @@ where
         // subchain under analysis
         .filter(|cb| cb.kind.is_pp() || std::ptr::eq(*eoc, *cb))
         .map(|cb| {
-            cb.arrival_bound.steps_iter().map(move |delta| {
+            // skip zero-length "steps" (as reported by some arrival models): the
+            // arrival bound cannot increase at delta = 0
+            let steps = cb
+                .arrival_bound
+                .steps_iter()
+                .filter(|delta| delta.is_non_zero());
+            steps.map(move |delta| {
                 if std::ptr::eq(*eoc, cb) {
                     // This is the callback under analysis.
                     // The steps_iter() gives us the values of delta such that
